@@ -183,6 +183,19 @@ def _selftests():
     return errs
 
 
+def _tasks(binary, tier):
+    q = tier == "quick"
+    N = 4 if q else 6
+    refN = 4 if q else 5         # trees of 6 nodes (830 000 of them) are judged by the round trip only
+    t = ["tier=" + tier, "ref=1"]
+    modes = [["trees", "N=%d" % N, "refN=%d" % refN], ["strref"], ["counts"], ["leaves"], ["halves"], ["typed"], ["depth"]]
+    tasks = []
+    for m in modes:
+        for i in range(NSLICES):
+            tasks.append((binary, m + t, i, NSLICES))
+    return N, refN, tasks
+
+
 def run(tier):
     binary = _bin()
     ck = runner.Check(PROP, tier, "exploration")
@@ -193,14 +206,7 @@ def run(tier):
         ck.add(r)
         ck.finish(replay)
     q = tier == "quick"
-    N = 4 if q else 6
-    refN = 4 if q else 5         # trees of 6 nodes (830 000 of them) are judged by the round trip only
-    t = ["tier=" + tier, "ref=1"]
-    modes = [["trees", "N=%d" % N, "refN=%d" % refN], ["strref"], ["counts"], ["leaves"], ["typed"], ["depth"]]
-    tasks = []
-    for m in modes:
-        for i in range(NSLICES):
-            tasks.append((binary, m + t, i, NSLICES))
+    N, refN, tasks = _tasks(binary, tier)
     res = runner.Result()
     res.sum["evaluations"] = 0
     res.sum["nontrivial"] = 0
@@ -218,7 +224,8 @@ def run(tier):
         "per format (CBOR, MessagePack, UBJSON, BSON) x entry point (encode_X(json) / encode_X(ojson) DOM, basic_X_encoder events with declared lengths, "
         "events with indefinite lengths [MessagePack must refuse them], encode_X(std::vector<T>) typed) x options (CBOR pack_strings x use_typed_arrays; "
         "max_nesting_depth default/1/2/5): (leaves) every leaf of the value set — integers on both sides of every width boundary in both storage kinds, "
-        "epoch_second/milli/nano integers, 40 double bit patterns (half/float-exact and not, subnormals, infinities, 8 NaN payloads), 16 half floats, "
+        "epoch_second/milli/nano integers, 40 double bit patterns (half/float-exact and not, subnormals, infinities, 8 NaN payloads), 16 half floats "
+        "(mode halves: %s half-precision bit patterns), "
         "strings of 0..65537 bytes at every length-class boundary with 2/3/4-byte UTF-8 tails, byte strings likewise, every semantic tag with well-typed "
         "content (bigint of 1..700 digits, decimal-fraction and bigfloat mantissa x exponent grids with int64 and bignum mantissas, datetime, uri, "
         "base16/64/64url hints, ext/raw tags 0..2^64-1, BSON decimal128/ObjectId/regex/code) — alone, in an array, in an object, twice in an array, and "
@@ -230,13 +237,14 @@ def run(tier):
         "equals the documented mapping of v as model values (structure, member names and order, integers by value, doubles bit for bit with any NaN = NaN, "
         "string/byte contents, semantic tags where the format has a counterpart, big decimals/floats by exact value); a value outside the domain must be "
         "refused at encode time or come back unchanged; and the independent reference decoder must read the written bytes as the value jsoncons read. "
-        "non-trivial = cases inside the domain whose round trip was compared in full." % (N, "" if q else " (the reference decoder judges those of <= 5 nodes)", "" if q else ",65537,127,128,32767,32768"))
+        "non-trivial = cases inside the domain whose round trip was compared in full." % ("every 64th and the two next to every exponent boundary of the 65536" if q else "all 65536", N, "" if q else " (the reference decoder judges those of <= 5 nodes)", "" if q else ",65537,127,128,32767,32768"))
     ck.assumptions = [
         "int64 vs uint64 storage of an integer, and half vs double storage of a floating-point value, are not part of the statement (values are compared)",
         "abstained (counted): CBOR epoch_milli / epoch_nano integers and doubles (written as a double of seconds: not documented); bigfloat texts whose "
         "exponent reads differently as decimal (encoder documentation) and hexadecimal (decoder documentation), i.e. two or more exponent digits; raw "
         "tags on byte strings that CBOR itself interprets (2, 3, 21-23, 25, 256, 64-87) and MessagePack ext type 255 (= -1, timestamp); BSON epoch_nano "
-        "values that are not whole milliseconds; BSON root array (the encoder documents it, what it decodes to is not stated: std::vector<T> is carried "
+        "values that are not whole milliseconds; UBJSON bigint/bigdec texts that are not JSON numbers (\"+1.5\", \".5\", \"5.\": a high-precision number is a "
+        "JSON number); BSON root array (the encoder documents it, what it decodes to is not stated: std::vector<T> is carried "
         "in a std::map for BSON); MessagePack epoch-tagged strings that are not integers",
         "tags without a counterpart in a format (e.g. datetime/uri outside CBOR, base-N hints outside CBOR, epoch tags in UBJSON) may be dropped: content must "
         "survive, the decoded tag must be the original or none; UBJSON high-precision numbers: bigint and bigdec are one kind; UBJSON byte strings: "
